@@ -431,6 +431,7 @@ def restore_plan(path):
     """what the plan-building part of one top-level path of `restore` does; None = no recognisable plan loop.
     {'ordered': bool, 'sizes': dict uid or None, 'chunkless': list uid or None}"""
     res = {'ordered': True, 'sizes': 'unset', 'chunkless': 'unset', 'n': 0}
+    per_file = {}
     for e, chain, i, events in walk(path.events):
         if e.kind != 'loop':
             continue
@@ -470,6 +471,28 @@ def restore_plan(path):
             pass
         else:
             res['chunkless'] = None
+        if chain:
+            per_file[chain[-1][0].uid] = chain[-1][0]
+    # iterations of the per-file loop that register a file but never reach the loop over its parts (a guard clause for the
+    # files without chunks): they must be the ones that know there are no parts, and remember the path
+    for PF in per_file.values():
+        for q in PF.paths:
+            if any(x.kind == 'loop' and _part_loop_var(x.a) is not None for x in q.events):
+                continue
+            registers = any(x.kind == 'store' and F.contains(F.strip(x.b), lambda t: t[0] == 'sub' and t[2] == ('const', 'metadata'))
+                            for x in q.events)
+            if not registers:
+                continue
+            lits = q.lits()
+            xs = [t for l, _p in lits for t in F.subterms(l)
+                  if (lambda u: u[0] == 'sub' and u[2] == ('const', 'chunks'))(F.strip(unwrap_iter(t[3][0] if (t[0] == 'call' and t[2] == ('name', 'sorted') and t[3]) else t)))]
+            apps = [x for x in q.events if x.kind == 'call' and x.a[0] == 'call' and x.a[2][0] == 'attr' and x.a[2][2] in ('append', 'add')
+                    and x.a[2][1][0] in ('list', 'set') and not x.a[2][1][2]
+                    and len(x.a[3]) == 1 and F.strip(x.a[3][0])[0] == 'sub' and F.strip(x.a[3][0])[2] == ('const', 'path')]
+            if emptiness(lits, xs) is True and len(apps) == 1 and res['chunkless'] in ('unset', F.sym_uid(apps[0].a[2][1])):
+                res['chunkless'] = F.sym_uid(apps[0].a[2][1])
+            else:
+                res['chunkless'] = None
     return res if res['n'] else None
 
 
@@ -759,8 +782,18 @@ def _chunkless_record(k, v, holder):
 
 
 def _listed_afterwards(later, uid):
-    return any(F.contains(x.a, lambda t: t[0] == 'call' and t[2][0] == 'attr' and t[2][2] == 'values' and F.sym_uid(t[2][1]) == uid)
-               for x in later if x.kind == 'call')
+    """the values (or items) of the dict with identity `uid` are read by one of these later events (evaluated there, not a
+    value computed earlier and only mentioned)"""
+    def reads(t):
+        return t[0] == 'call' and t[2][0] == 'attr' and t[2][2] in ('values', 'items') and F.sym_uid(t[2][1]) == uid
+    for x in later:
+        if x.kind != 'call':
+            continue
+        if x.a[0] == 'call' and reads(x.a):
+            return True
+        if x.a[0] == 'comp' and F.contains(x.a, reads):
+            return True
+    return False
 
 
 def records_chunkless(path):
@@ -788,6 +821,8 @@ def records_chunkless(path):
         L = e.a
         it = F.strip(unwrap_iter(L.iter))
         prefilter = []
+        if it[0] == 'call' and it[2] == ('name', 'map') and len(it[3]) == 2 and key_body(None, it[3][0]) == ('sub', ('bound', 0, 0), ('const', 1)):
+            it = F.strip(unwrap_iter(it[3][1]))          # the loop sees the second component of every entry
         if it[0] == 'comp' and it[2] in ('list', 'gen') and len(it[4]) == 1 and len(it[3]) == 1:
             # [f for _, f in state.files if f.path not in D]: the loop sees the files themselves; the filter is checked below
             (src, celem, conds), elt = it[4][0], it[3][0]
@@ -839,6 +874,34 @@ def records_chunkless(path):
 
 
 # ---- the padding between files
+def _pad_remainder(p, lits):
+    """p == A - (len % A) on a path that knows len % A != 0 (the other spelling of -len % A): (F, A), else None"""
+    p = F.strip(p)
+    ln = ('bin', '-', ('attr', F.Cap('f'), VOCAB['f_end']), ('attr', F.Cap('f'), VOCAB['f_start']))
+    c = F.match(p, ('bin', '-', F.Cap('a'), ('bin', '%', ln, F.Cap('a'))))
+    if c is None:
+        return None
+    rem = p[3]
+    for l, pol in F.known(lits):
+        if (l == rem and pol) or (l[0] == 'cmp' and l[1] == '==' and rem in (l[2], l[3]) and ('const', 0) in (l[2], l[3]) and not pol) \
+                or (l == ('cmp', '<', ('const', 0), rem) and pol):
+            return c['f'], c['a']
+    return None
+
+
+def _no_remainder(lits):
+    """the path knows that (end - start) % alignment == 0 for some file"""
+    ln = ('bin', '-', ('attr', F.Cap('f'), VOCAB['f_end']), ('attr', F.Cap('f'), VOCAB['f_start']))
+    for l, pol in F.known(lits):
+        if F.match(l, ('bin', '%', ln, F.Cap('a'))) is not None and not pol:
+            return True
+        if l[0] == 'cmp' and l[1] == '==' and pol and ('const', 0) in (l[2], l[3]):
+            other = l[3] if l[2] == ('const', 0) else l[2]
+            if F.match(other, ('bin', '%', ln, F.Cap('a'))) is not None:
+                return True
+    return False
+
+
 def _pad_len(p, caps=None):
     """p == -(F.stream_end - F.stream_start) % A  (or (A - len % A) % A): returns (F, A) stripped, else None"""
     p = F.strip(p)
@@ -884,7 +947,7 @@ def padding_shape(flow, path):
                         if x.kind != 'yield':
                             continue
                         n = _zero_bytes(x.a)
-                        pl = _pad_len(n) if n is not None else None
+                        pl = (_pad_len(n) or _pad_remainder(n, it.lits())) if n is not None else None
                         if pl is not None:
                             ys.append((x, pl))
                     if len(ys) > 1:
@@ -899,12 +962,15 @@ def padding_shape(flow, path):
                         pads += 1
                         continue
                     # no padding on this iteration: allowed only when it is known not to be needed
-                    need = None
+                    need = False if _no_remainder(lits) else None
                     for c, p in F.known(lits):
                         if c[0] == 'attr' and c[2] == 'alignment' and not p:
                             need = False
                         if _pad_len(c) is not None and not p:
                             need = False
+                        if not p and F.match(c, ('bin', '-', F.Cap('a'), ('bin', '%', ('bin', '-', ('attr', F.Cap('f'), VOCAB['f_end']),
+                                                                                  ('attr', F.Cap('f'), VOCAB['f_start'])), F.Cap('a')))) is not None:
+                            need = False       # a - len % a is never 0: this path cannot happen
                         if c[0] == 'cmp' and c[1] == '==' and p and ((F.is_const(c[2], 0) and _pad_len(c[3]) is not None)
                                                                     or (F.is_const(c[3], 0) and _pad_len(c[2]) is not None)):
                             need = False
@@ -1264,6 +1330,8 @@ def _chunk_done_one(node, q, bis):
             L, entry = cand, ('elem', cand.uid)
     assert L is not None, 'no backwards walk from the bisection point'
     fsym = ('item', entry, 1)
+    last = ('sub', entry, ('const', -1))        # the entries are (offset, file) pairs: entry[-1] is entry[1]
+    q = _rewrite_paths(L, last, fsym)
 
     def leaf(x):
         if x[0] == 'attr' and x[1] == fsym and x[2] in (VOCAB['f_start'], VOCAB['f_end']):
@@ -1280,7 +1348,8 @@ def _chunk_done_one(node, q, bis):
     stops = set()
     for p in brk:
         conds = [e for e in p.events if e.kind == 'cond']
-        assert len(conds) == 1 and not any(e.kind in ('call', 'store') for e in p.events), 'stop test comes first'
+        assert len(conds) == 1 and not any(e.kind in ('store', 'aug', 'del') or (e.kind == 'call' and e.c != 'inlined')
+                                           for e in p.events), 'stop test comes first'
         stops.add(F.canon_lit(conds[0].a, conds[0].b))
     assert len(stops) == 1
     stop_c, stop_p = next(iter(stops))
@@ -1334,6 +1403,24 @@ def _chunk_done_one(node, q, bis):
     got['partEndBase'] = translate(sym_src(pe[3], leaf), names, 'nat')
     got['fileComplete'] = translate(sym_src(next(iter(complete)), leaf), names, 'bool')
     return got
+
+
+def _rewrite_paths(L, old, new):
+    """replace the stripped sub-sym `old` by `new` in the events of the iteration paths of loop L (in place)"""
+    def rw(x):
+        if not isinstance(x, tuple) or not x or isinstance(x, F.LoopInfo):
+            return x
+        if isinstance(x[0], str) and F.strip(x) == old:
+            return new
+        return tuple(rw(a) if isinstance(a, tuple) else a for a in x)
+    for p in L.paths:
+        for e in p.events:
+            if e.kind in ('cond', 'call', 'store', 'bind', 'aug', 'eval'):
+                if isinstance(e.a, tuple) and F.contains(e.a, lambda t: F.strip(t) == old):
+                    e.a = rw(e.a)
+                if isinstance(e.b, tuple) and F.contains(e.b, lambda t: F.strip(t) == old):
+                    e.b = rw(e.b)
+    return None
 
 
 # ---- smaller facts of snapshot / restore
@@ -1473,6 +1560,8 @@ def piece_size(flow, path):
                             vals.add(None)
                     else:
                         vals.add(None)
+                elif n[0] == 'param':
+                    pass          # a helper generator that is handed the size: seen with its value where it is delegated to
                 else:
                     vals.add(None)
     if len(vals) == 1 and type(next(iter(vals))) is int:
@@ -1602,6 +1691,28 @@ def files_list_facts(flow, paths):
             sortkey = False
         dedup = dedup and _dedups(e.a[2][1], p.events[:i])
     return (dedup and seen > 0), (sortkey and seen > 0)
+
+
+def streamed_list_dedups(flow, reps):
+    """the list of files that the streaming generator of snapshot walks cannot contain a file twice"""
+    seen = 0
+    for p in reps:
+        found = False
+        for node, paths in flow.units_below(p, every=True):
+            if not F.is_generator(node):
+                continue
+            for q in paths:
+                loops = [e.a for e in q.events if e.kind == 'loop' and e.a.kind == 'for']
+                if not loops or not any(x.kind == 'call' and x.a[0] == 'call' and x.a[2][0] == 'attr' and x.a[2][2] in ('read', 'read1', 'readinto')
+                                        for x, _c, _i, _l in walk(q.events)):
+                    continue
+                if not _dedups(unwrap_iter(loops[0].iter), p.events):
+                    return False
+                found = True
+        if not found:
+            return False
+        seen += 1
+    return seen > 0
 
 
 def newest_first(paths):
@@ -1763,6 +1874,9 @@ def repository_section():
         emit('opaque snapLocSplit : Nat')
     # --- shapes of the defect fixes (each a Bool the theorems discharge by `decide`)
     fp('repository._flatten_resolve_paths', find_func(tree, 'Repository', '_flatten_resolve_paths'))
+    if not dedup:
+        # however the list is put in order: what matters is the list that is streamed
+        dedup = attempt('flattenDedups', lambda: streamed_list_dedups(flow, snap_reps), False)
     emit(f'def flattenDedups : Bool := {"true" if dedup else "false"}')
     fp('repository.restore._download_chunk', find_func(tree, 'Repository', 'restore', '_download_chunk'))
     by_id = {id(p): pl for p, pl in zip(rest_paths, plans)}
